@@ -8,7 +8,7 @@
 From Coq Require Import String List Bool ZArith QArith Arith Permutation.
 From DL Require Import Fmt.DescFormat.
 From DL Require Import Lib.Val Lib.PyDict Lib.Sort Decay.Conj Decay.ConjProofs Decay.ChainDict Decay.ChainClass
-  Decay.ChainClassProofs Decay.Flatten Decay.ChainRoundTrip Dec.Tables Dec.ChainsProofs Dec.ParserForm.
+  Decay.ChainClassProofs Decay.Flatten Decay.ChainRoundTrip Decay.DescriptorProofs Dec.Tables Dec.ChainsProofs Dec.ParserForm.
 Import ListNotations.
 Close Scope Q_scope.
 Open Scope string_scope.
@@ -89,6 +89,16 @@ Theorem C11_parser_chain_roundtrip : forall T S fuel m c,
                     /\ chain_to_dict (Datatypes.S (csize c)) decays m = Some d' /\ sim c d'.
 Proof. intros T S fuel m c H. apply (parser_chain_roundtrip T S). exact (build_sound T S fuel m c H). Qed.
 Print Assumptions C11_parser_chain_roundtrip.
+
+(* hence the three forms agree on the one-line descriptor: the class form's to_string() is the descriptor of the parser's own
+   dictionary, which is the single entry expand_decay_modes lists for it (C10, C13) — for any pair of patterns.
+   (csize c < 100: the model's to_string runs to_dict with fuel 100.) *)
+Theorem C11_parser_class_descriptor : forall cfg T S fuel m c,
+  build fuel T S m = Some (Some c) -> one_mode c -> ~ In m S -> csize c < 100 ->
+  exists ch, chain_from_dict c = COk ch /\ chain_to_string cfg ch = VStr (descr cfg true c)
+             /\ expand cfg [] true c = [descr cfg true c].
+Proof. intros cfg T S fuel m c H. apply (parser_chain_to_string cfg T S). exact (build_sound T S fuel m c H). Qed.
+Print Assumptions C11_parser_class_descriptor.
 
 (* non-vacuity: a table set with a particle (pi0) decaying at two places of the chain *)
 Definition exT11 : list table :=
